@@ -222,6 +222,7 @@ func callerYAML(r *hx.Rng, act string, af iface, wf string, wfi iface) string {
 		b.WriteString("on: push\n")
 	}
 	b.WriteString("jobs:\n  use:\n    runs-on: ubuntu-latest\n    steps:\n")
+	b.WriteString("      - run: echo ${{ github.zz_mark }}\n")
 	fmt.Fprintf(&b, "      - uses: %s\n", act)
 	var with []string
 	for i, n := range af.names {
@@ -317,8 +318,10 @@ func genRepo(r *hx.Rng, root string, k int) repo {
 	}
 	// patterns for files named from the ROOT of the repository (not "**/"): they apply wherever
 	// the linter is started from
-	if r.Intn(2) == 0 {
-		cfg += "paths:\n  .github/workflows/caller*.yaml:\n    ignore:\n      - 'not defined'\n      - 'is required'\n  .github/workflows/callee.yaml:\n    ignore:\n      - '.*'\n"
+	// (the ignored message is one planted for this purpose - `github.zz_mark` in every caller - so
+	// that no other difference between runs can hide behind the patterns; no draw from r)
+	if len(root)%2 == 0 || k == 1 {
+		cfg += "paths:\n  .github/workflows/caller*.yaml:\n    ignore:\n      - 'zz_mark'\n  .github/workflows/nosuch.yaml:\n    ignore:\n      - '.*'\n"
 	}
 	write(filepath.Join(root, ".github", "actionlint.yaml"), cfg)
 	rp := repo{root: root, files: []string{callee}}
@@ -554,6 +557,22 @@ func main() {
 			}
 		}
 		files = append(files, twice)
+		// a file whose ONLY call of the repository's reusable workflow is malformed (a ref on a local
+		// path): what it leaves in the shared cache must not change how the proper calls of the other
+		// files are checked
+		badonly := filepath.Join(ra.root, ".github", "workflows", "badonly.yaml")
+		write(badonly, "on: push\njobs:\n  a:\n    uses: ./.github/workflows/callee.yaml@main\n  b:\n    runs-on: ubuntu-latest\n    steps:\n      - uses: ./.github/actions/act@v1\n")
+		files = append(files, badonly)
+		// every file gets a workflow name of its own (the sequenced runs below identify the files by it)
+		seqName := map[string]string{}
+		for fi, f := range files {
+			b, err := os.ReadFile(f)
+			hx.Must(err)
+			if !bytes.HasPrefix(b, []byte("name:")) && !bytes.Contains(b, []byte("\nname:")) {
+				seqName[f] = fmt.Sprintf("seq-%d-%d", g, fi)
+				write(f, "name: "+seqName[f]+"\n"+string(b))
+			}
+		}
 		// alone
 		alone := map[string]string{}
 		rootOf := func(f string) string {
@@ -632,6 +651,32 @@ func main() {
 			}
 			if nt {
 				nontrivial++
+			}
+			// the same files once more, visited one after another in the order of the arguments
+			if n >= 2 {
+				var names []string
+				for _, f := range sub {
+					names = append(names, seqName[f])
+				}
+				cur, _ := json.Marshal(map[string]interface{}{"files": sub, "working_dir": wd, "sequenced": true})
+				os.WriteFile(filepath.Join(*out, "current.json"), cur, 0o644)
+				errs, err := sequencedLint(wd, sub, names)
+				sum.Evaluations++
+				sum.Dist["sequenced_subset_runs"]++
+				if err != nil {
+					sum.OracleFails = append(sum.OracleFails, failure{What: "fatal error in a sequenced multi-file run", Key: "fatal-multi", Input: strings.Join(sub, " , "), Got: err.Error()})
+					continue
+				}
+				got := perFile(errs, pbase)
+				for _, f := range sub {
+					if got[f] != alone[f] {
+						sum.OracleFails = append(sum.OracleFails, failure{
+							What:  "a file gets different diagnostics when the files of the run are visited one after another in the order of the arguments than when linted alone",
+							Key:   "isolation-sequenced:" + classifyDiff(got[f], alone[f]),
+							Input: "file " + strings.TrimPrefix(f, base) + " in the sequenced run [" + strings.ReplaceAll(strings.Join(sub, " , "), base, "") + "]",
+							Got:   got[f], Want: alone[f]})
+					}
+				}
 			}
 		}
 		// the library entry point for a directory: every workflow below it, each attributed to ITS
